@@ -32,6 +32,12 @@ CLAIMED["C12"] = ("TLC checks the direct classifier (C12) against the step-by-st
             "Trusted: TLC, the (bucket, offset) projection of 64-bit words, synthetic mappings installed in a PtraceDumper over a paused child.",
             "TLA+ model checking (TLC) + model-generated replay + trace validation", "DESIGN.md 4/C12")
 
+CLAIMED["C10"] = ("TLC checks PrefixConsistent in every state of the destination-call-level model (crash or I/O error between any two calls); on real "
+            "dumps the destination is decoded by the independent decoder after every one of the ~93 calls and, per call index, a dump with that call "
+            "failing must return an error and leave a consistent prefix; TLC judges every recorded prefix.",
+            "Trusted: TLC, mdparse (independent decoder) for the extents of streams and of what they reference, the recording destination; one write_all = one step.",
+            "TLA+ model checking (TLC) + fault enumeration at every destination call + trace validation", "DESIGN.md 4/C10")
+
 NOT_YET = {
 }
 
